@@ -119,6 +119,10 @@ type c13Live struct {
 	NMsg    int      `json:"nmsg"`
 	Corrupt [][3]int `json:"corrupt"` // (wire index to copy, byte pos, bit) injected into side Corrupt[i][0]%2's peer
 	CsumFix int      `json:"csumfix"` // 0 leave corrupted checksum, 1 zero the checksum field
+	// handshake disturbances (as in C04): retransmitted INIT / COOKIE-ECHO, crossed INITs
+	F       [][3]int `json:"f,omitempty"`
+	First   int      `json:"first,omitempty"`
+	StartMs int      `json:"startoff,omitempty"`
 }
 
 func genC13Live(rt *rapid.T) c13Live {
@@ -128,12 +132,16 @@ func genC13Live(rt *rapid.T) c13Live {
 	for i := 0; i < n; i++ {
 		x.Corrupt = append(x.Corrupt, [3]int{rapid.IntRange(0, 200).Draw(rt, "idx"), rapid.IntRange(0, 3000).Draw(rt, "pos"), rapid.IntRange(0, 7).Draw(rt, "bit")})
 	}
+	if rapid.Bool().Draw(rt, "hsfaults") {
+		x.F = genC04Faults(rt)
+		x.First = rapid.IntRange(0, 1).Draw(rt, "first")
+		x.StartMs = rapid.SampledFrom([]int{0, 0, 1, 10, 20, 500, 1000, 1500}).Draw(rt, "startoff")
+	}
 	return x
 }
 
 func runC13Live(t *testing.T, x c13Live, verbose bool) (c vfCase) {
-	var sc vfE1
-	sc.Mode = x.Mode
+	sc := c04Scn{Mode: x.Mode, F: x.F, First: x.First, StartMs: x.StartMs}.e1()
 	sc.Cfg[0] = vfSideCfg{IL: x.IL[0], ZC: x.ZC[0], TSN: 1000, RTOMax: 2000}
 	sc.Cfg[1] = vfSideCfg{IL: x.IL[1], ZC: x.ZC[1], TSN: 2000, RTOMax: 2000}
 	for i := 0; i < x.NMsg; i++ {
@@ -141,39 +149,53 @@ func runC13Live(t *testing.T, x c13Live, verbose bool) (c vfCase) {
 	}
 	sc.Acts = append(sc.Acts, vfAct{AtMs: 50, Side: 0, Kind: "hb"})
 	zeroSeen, crcSeen := 0, 0
-	out := vfRunE1(t, &sc, vfE1Opts{verbose: verbose, done: vfAllDelivered, bound: func(*vfSim) time.Duration { return 3 * time.Second },
+	// emission rule over every packet of the run (also evaluated when the handshake failed)
+	emissionDone := false
+	emission := func(s *vfSim) bool {
+		emissionDone = true
+		// emission rule over every packet of the run
+		s.net.mu.Lock()
+		wire := append([]vfWireEv(nil), s.net.wire...)
+		s.net.mu.Unlock()
+		for i := range wire {
+			ev := &wire[i]
+			if ev.P == nil {
+				continue
+			}
+			mand := ev.P.has(wtINIT) || ev.P.has(wtCOOKIEECHO)
+			peerAccepts := x.ZC[1-ev.Side]
+			// before the peer's INIT / INIT-ACK was seen nothing is known: INIT-ACK itself is sent
+			// by a side that has seen the INIT, COOKIE-ECHO always carries a CRC
+			mayZero := peerAccepts && !mand
+			if ev.P.Csum == 0 {
+				zeroSeen++
+				if !mayZero {
+					c.fail("zero-checksum-emitted", "side %d emitted a zero checksum (packet %s) although peer acceptance=%v mandatory=%v", ev.Side, ev.P.String(), peerAccepts, mand)
+					return false
+				}
+			} else {
+				crcSeen++
+				if ev.P.Csum != wCRC32c(ev.Raw) {
+					c.fail("wrong-crc-emitted", "side %d emitted checksum %#x, independent CRC32c is %#x", ev.Side, ev.P.Csum, wCRC32c(ev.Raw))
+					return false
+				}
+				if mayZero && x.Mode != "snap" && ev.P.first(wtINITACK) == nil {
+					// allowed by the statement ("only if"), just classify
+					c.class("crc-although-zero-allowed")
+				}
+			}
+		}
+		return true
+	}
+	out := vfRunE1(t, &sc, vfE1Opts{verbose: verbose, done: vfAllDelivered, bound: func(*vfSim) time.Duration {
+			if len(x.F) > 0 {
+				return vfDrainBound(&sc)
+			}
+			return 3 * time.Second
+		},
 		eval: func(s *vfSim, out *vfE1Out) {
-			// emission rule over every packet of the run
-			s.net.mu.Lock()
-			wire := append([]vfWireEv(nil), s.net.wire...)
-			s.net.mu.Unlock()
-			for i := range wire {
-				ev := &wire[i]
-				if ev.P == nil {
-					continue
-				}
-				mand := ev.P.has(wtINIT) || ev.P.has(wtCOOKIEECHO)
-				peerAccepts := x.ZC[1-ev.Side]
-				// before the peer's INIT / INIT-ACK was seen nothing is known: INIT-ACK itself is sent
-				// by a side that has seen the INIT, COOKIE-ECHO always carries a CRC
-				mayZero := peerAccepts && !mand
-				if ev.P.Csum == 0 {
-					zeroSeen++
-					if !mayZero {
-						c.fail("zero-checksum-emitted", "side %d emitted a zero checksum (packet %s) although peer acceptance=%v mandatory=%v", ev.Side, ev.P.String(), peerAccepts, mand)
-						return
-					}
-				} else {
-					crcSeen++
-					if ev.P.Csum != wCRC32c(ev.Raw) {
-						c.fail("wrong-crc-emitted", "side %d emitted checksum %#x, independent CRC32c is %#x", ev.Side, ev.P.Csum, wCRC32c(ev.Raw))
-						return
-					}
-					if mayZero && x.Mode != "snap" && ev.P.first(wtINITACK) == nil {
-						// allowed by the statement ("only if"), just classify
-						c.class("crc-although-zero-allowed")
-					}
-				}
+			if !emission(s) {
+				return
 			}
 			// metadata agrees
 			for i := 0; i < 2; i++ {
@@ -183,9 +205,17 @@ func runC13Live(t *testing.T, x c13Live, verbose bool) (c vfCase) {
 				}
 			}
 			// inject corrupted copies of genuine packets; they must have no effect at all
+			// (only from a quiescent association: the attribution of answers needs silence)
 			effective := 0
+			s.o.settle(400 * time.Millisecond) // heartbeat round trip, delayed acknowledgements
+			if len(x.F) > 0 {
+				s.o.settle(2 * time.Second) // copies delayed by the handshake faults are still in flight
+			}
+			s.net.mu.Lock()
+			wire := append([]vfWireEv(nil), s.net.wire...)
+			s.net.mu.Unlock()
 			for _, cr := range x.Corrupt {
-				if len(wire) == 0 {
+				if len(wire) == 0 || !out.Done {
 					break
 				}
 				ev := &wire[cr[0]%len(wire)]
@@ -235,10 +265,17 @@ func runC13Live(t *testing.T, x c13Live, verbose bool) (c vfCase) {
 			}
 			c.Nontrivial = effective > 0 || zeroSeen > 0
 		}})
+	if !emissionDone && out.sim != nil && c.Verdict == "" {
+		emission(out.sim)
+	}
 	if !out.HSOK {
-		if c.Verdict == "" {
+		if c.Verdict == "" && len(x.F) == 0 {
 			c.fail("handshake-failed", "handshake failed without faults: %v", out.HSErr)
 		}
+		c.Nontrivial = c.Nontrivial || zeroSeen > 0
+	}
+	if len(x.F) > 0 {
+		c.class("handshake-faults")
 	}
 	if zeroSeen > 0 {
 		c.class("zero-checksums-on-wire")
